@@ -282,6 +282,45 @@ register_judge('c13a', judge_c13a)
 
 
 # ---------------------------------------------------------------- the check
+TX = ['map', [L(11), L(12)]]
+TY = ['submit', A(21)]
+TA = ['seq', [L(31), L(32)]]
+
+
+def churn_specs(topo: str) -> list:
+    """Clients coming and going while other clients' tasks are alive: task
+    ids, mailboxes and results must stay with their own client and task.
+    Virtual sleeps fix the order of the clients' calls; the scheduler explores
+    the order of everything else."""
+    t = TOPOS[topo]
+    S = [
+        ('leaver-then-second-submit',
+         [[['submit', 'a', TA], ['sleep', 2], ['close']],
+          [['sleep', 1], ['submit', 'x', TX], ['sleep', 2],
+           ['submit', 'y', TY], ['sleep', 5], ['status', 'x'],
+           ['result', 'x'], ['result', 'y']]]),
+        ('sequential-clients',
+         [[['submit', 'a', TA], ['result', 'a'], ['close']],
+          [['sleep', 3], ['submit', 'x', TX], ['result', 'x'],
+           ['submit', 'y', TY], ['result', 'y']]]),
+        ('cancel-then-resubmit',
+         [[['submit', 'a', TA], ['cancel', 'a'], ['submit', 'b', TY],
+           ['result', 'b']],
+          [['sleep', 1], ['submit', 'x', TX], ['sleep', 3],
+           ['result', 'x']]]),
+        ('three-clients',
+         [[['submit', 'a', TA], ['sleep', 2], ['close']],
+          [['sleep', 1], ['submit', 'x', TX], ['sleep', 4], ['result', 'x']],
+          [['sleep', 3], ['submit', 'y', TY], ['result', 'y']]]),
+        ('fetch-then-others-submit',
+         [[['submit', 'a', TA], ['result', 'a'], ['sleep', 3],
+           ['submit', 'b', TX], ['result', 'b']],
+          [['sleep', 1], ['submit', 'x', TY], ['sleep', 1], ['close']]]),
+    ]
+    return [{'name': f'{topo}/churn/{n}', 'topo': t, 'clients': c}
+            for n, c in S]
+
+
 def plan_b(ctx: Ctx) -> list:
     q = ctx.quick
     topos = ['a1', 'a2', 'd2', 'd11'] + ([] if q else ['a3', 'd21'])
@@ -290,6 +329,10 @@ def plan_b(ctx: Ctx) -> list:
           + [err_spec2(tp, t) for tp in ('d2', 'd11') for t in
              ('raise-root', 'raise-child', 'raise-in-map')],
           1, 'deviation', 90 if q else 900)]
+    P.append(('client-churn/deviation<=1',
+              [s for tp in (('d2',) if q else ('d2', 'd11'))
+               for s in churn_specs(tp)],
+              1, 'deviation', 60 if q else 900))
     if not q:
         P.append(('errors/deviation<=2',
                   [err_spec(tp, t) for tp in ('a2', 'd11') for t in ETREES]
